@@ -175,6 +175,18 @@ def signature(cfg, fam):
               mono_cond=bool(cond_mono), tz_mono_cond=bool(tz_cond_mono))
 
 
+def _only_along_tz_cond(cfg, w, tol):
+  """True iff every violated monotonicity inequality lies along a dimension that
+  is the (monotone) conditional feature of a trapezoid trust - the mechanism of
+  finding F-C01-1."""
+  conds = set(t[1] for t in cfg["tz"] if cfg["mono"][t[1]] == 1)
+  dims = set()
+  for fam, tag, r in R.constraint_rows(cfg, ("mono",)):
+    if -sum(c * w[k] for k, c in r.items()) > tol:
+      dims.add(tag[0])
+  return bool(dims) and dims <= conds
+
+
 def run_case(case):
   out = Outcome()
   cfg, units = case["cfg"], case["units"]
@@ -242,9 +254,11 @@ def run_case(case):
       out.checks += 1
       worst = max(worst, v[fam] / s_out)
       if v[fam] > tol:
+        sg = signature(cfg, fam)
+        if fam == "mono":
+          sg["along_tz_mono_cond"] = _only_along_tz_cond(cfg, res[:, u], tol)
         out.violate("%s violated by %.3g (tolerance %.3g) in unit %d via %s" %
-                    (fam, v[fam], tol, u, case["entry"]),
-                    **signature(cfg, fam))
+                    (fam, v[fam], tol, u, case["entry"]), **sg)
     if "bounds" in v and not (lib_entry and not (cfg["ew"] or cfg["tz"])) and (
         not lib_entry or any(cfg["mono"])):
       out.checks += 1
